@@ -1139,6 +1139,23 @@ pub fn c10_real(v: &Verdicts, thorough: bool) -> RealStats {
     inputs.push(("rp-nested-3000-deep-unauthenticated", "tcp", vec![format!("{}\n", deep(3000)).into_bytes()], 400, false));
     inputs.push(("rp-nested-3000-deep", "http", vec![format!("POST / HTTP/1.1\r\nHost: x\r\nConnection: close\r\nContent-Length: {}\r\n\r\n{}", deep(3000).len(), deep(3000)).into_bytes()], 400, false));
     inputs.push(("rp-nested-3000-deep", "ws", vec![deep(3000).into_bytes()], 400, false));
+    // the same nesting spelled in every way a lenient parser might accept (the guard against an rp inside an rp is a
+    // textual one: whatever the parser takes for the command word `rp` must be refused as a wrapped command as well)
+    let spelled = |unit: &[&str], n: usize| -> String { let mut s = String::new(); for i in 0..n { s.push_str(unit[i % unit.len()]); } s.push_str("get probe"); s };
+    for (name, unit) in [
+        ("rp-nested-3000-deep-upper-case", &["RP 1 "][..]),
+        ("rp-nested-3000-deep-mixed-case", &["rp 1 ", "Rp 2 ", "rP 3 ", "RP 4 "][..]),
+        ("rp-nested-3000-deep-first-level-lower-case-then-upper", &["rp 1 ", "RP 2 ", "RP 3 ", "RP 4 ", "RP 5 ", "RP 6 "][..]),
+        ("rp-nested-3000-deep-tab-separated", &["rp\t1\t"][..]),
+        ("rp-nested-3000-deep-double-space", &["rp  1  "][..]),
+        ("rp-nested-3000-deep-leading-space", &["rp 1  "][..]),
+        ("rp-nested-3000-deep-semicolon-terminated", &["rp 1 rp; 2 "][..]),
+    ] {
+        inputs.push((name, "tcp", vec![[tcp_pre.clone(), format!("{}\n", spelled(unit, 3000)).into_bytes()].concat()], 400, false));
+    }
+    inputs.push(("rp-nested-3000-deep-upper-case-unauthenticated", "tcp", vec![format!("{}\n", spelled(&["RP 7 "], 3000)).into_bytes()], 400, false));
+    inputs.push(("rp-nested-3000-deep-mixed-case", "http", vec![{ let b = spelled(&["rp 1 ", "RP 2 "], 3000); format!("POST / HTTP/1.1\r\nHost: x\r\nConnection: close\r\nContent-Length: {}\r\n\r\n{}", b.len(), b).into_bytes() }], 400, false));
+    inputs.push(("rp-nested-3000-deep-mixed-case", "ws", vec![spelled(&["rp 1 ", "RP 2 "], 3000).into_bytes()], 400, false));
     inputs.push(("connections-aborted-before-they-are-served", "tcp", (0..60).map(|_| vec![]).collect(), 0, true));
     inputs.push(("connections-aborted-before-they-are-served", "http", (0..30).map(|_| vec![]).collect(), 0, true));
     inputs.push(("connections-aborted-before-they-are-served", "ws", (0..30).map(|_| vec![]).collect(), 0, true));
